@@ -9,6 +9,8 @@ LEVEL = "proof"
 
 
 def run(ctx):
+    # leaf translator: theorems re-checked against the Gallina translation of the current Go source
+    generic.leaf_obligations(ctx, ['Case'])
     common.build_coq()
     generic.props_obligations(ctx, "Props_C15")
     hb = common.build_harness()
